@@ -234,6 +234,8 @@ def unit():
             return f'!({v.text}).isEmpty'
         if v.typ == 'J':
             return f'({v.text}).truthy'
+        if v.typ == 'R':
+            return f'({v.text} != 0)'
         return None
 
     def coerce_hook(tr, v, want):
@@ -279,6 +281,13 @@ def unit():
                 return Val(f'(GV.GeoJson.Pos.mk {args[0].text} {args[1].text} {z})', 'Pos')
             ll = f'(GV.normalize true {args[0].text} {args[1].text})'
             return Val(f'(GV.GeoJson.Pos.mk {ll}.1 {ll}.2 {z})', 'Pos')
+        if isinstance(f, ast.Name) and f.id == 'dict' and len(e.args) == 1 and not e.keywords:
+            v = tr.expr(e.args[0])
+            if v.typ != 'JObj':
+                raise Unsupported(f'dict() of {v.typ}')
+            r = Val(v.text, 'JObj')                  # a new dict with the same entries
+            r.fresh_dict = True
+            return r
         if isinstance(f, ast.Attribute):
             r = method_call(tr, e)
             if r is not None:
